@@ -156,7 +156,7 @@ pub fn gen_session(rng: &mut Rng, o: &SessionOpts) -> Scenario {
     }
     if o.faulty {
         // swarm: a random subset of fault kinds per run
-        let enabled = [rng.chance(1, 2), rng.chance(1, 2), rng.chance(1, 2), rng.chance(1, 2), false];
+        let enabled = [rng.chance(1, 2), rng.chance(1, 2), rng.chance(1, 2), rng.chance(1, 2), rng.chance(1, 2)];
         sa::gen_timing_faults(rng, &mut sc, n_go, &enabled);
     }
     sc
@@ -538,6 +538,7 @@ pub fn fault_catalogue() -> serde_json::Value {
         "oversleep_io": "one 1 ms poll sleep of the I/O thread lasts 0.5..150 ms longer",
         "spawn_delay": "the search thread starts 0.2..100 ms after thread::spawn returns",
         "pause_all": "the whole process freezes for 1..200 ms at an offset inside a go",
+        "stall_before_send": "a search thread is descheduled for 0.05..150 ms between the root's acceptance test and the channel send of its i-th improvement",
         "slow_box": "c_node 0.2..200 us per node (x1000 range)",
         "poll_jitter": "every poll sleep oversleeps by a uniform 0..3 ms",
         "pipelined": "the GUI does not wait for bestmove before sending on"
@@ -554,8 +555,15 @@ pub fn determinism(seed: u64, n: u64) -> (u64, u64) {
         let mut rng = Rng::new(crate::rng::mix(seed, "determinism", r));
         let o = SessionOpts { timed: true, faulty: true, terminal: true, max_games: 2 };
         let sc = gen_session(&mut rng, &o);
-        let a = sa::run(&sc).log_hash();
-        let b = sa::run(&sc).log_hash();
+        let ra = sa::run(&sc);
+        let rb = sa::run(&sc);
+        let (a, b) = (ra.log_hash(), rb.log_hash());
+        if a != b && std::env::var("VERIF_DEBUG_DETERMINISM").is_ok() {
+            let la: Vec<String> = ra.events.iter().map(|e| format!("{}|{}|{:?}", e.t, e.tid as i64, e.kind)).collect();
+            let lb: Vec<String> = rb.events.iter().map(|e| format!("{}|{}|{:?}", e.t, e.tid as i64, e.kind)).collect();
+            let k = la.iter().zip(lb.iter()).take_while(|(x, y)| x == y).count();
+            eprintln!("determinism mismatch in scenario {}: first differing event #{}\n  A: {:?}\n  B: {:?}\n  ends: {:?} / {:?}\n  scenario: {}", r, k, la.get(k.saturating_sub(2)..(k + 3).min(la.len())), lb.get(k.saturating_sub(2)..(k + 3).min(lb.len())), ra.end, rb.end, sc.to_json());
+        }
         (a, a != b)
     });
     let mut digest = 0u64;
